@@ -48,18 +48,50 @@ type verifC08Policy struct {
 	Rules []verifC08Rule `json:"rules"`
 }
 
+// verifC08SID: a service identity, optionally scoped to datacenters (none = valid everywhere).
+type verifC08SID struct {
+	Name string   `json:"n"`
+	DCs  []string `json:"dcs,omitempty"`
+}
+
+// UnmarshalJSON also accepts the older plain-string form ("web").
+func (s *verifC08SID) UnmarshalJSON(b []byte) error {
+	if len(b) > 0 && b[0] == '"' {
+		s.DCs = nil
+		return json.Unmarshal(b, &s.Name)
+	}
+	type plain verifC08SID
+	return json.Unmarshal(b, (*plain)(s))
+}
+
+// verifC08NID: a node identity; its datacenter is mandatory ("" in old files = dc1, the resolver's own).
+type verifC08NID struct {
+	Name string `json:"n"`
+	DC   string `json:"dc,omitempty"`
+}
+
+func (n *verifC08NID) UnmarshalJSON(b []byte) error {
+	if len(b) > 0 && b[0] == '"' {
+		n.DC = "dc1"
+		return json.Unmarshal(b, &n.Name)
+	}
+	type plain verifC08NID
+	return json.Unmarshal(b, (*plain)(n))
+}
+
 type verifC08Role struct {
-	ID       string   `json:"id"`
-	Policies []string `json:"policies,omitempty"`
-	SIDs     []string `json:"sids,omitempty"`
+	ID       string        `json:"id"`
+	Policies []string      `json:"policies,omitempty"`
+	SIDs     []verifC08SID `json:"sids,omitempty"`
+	NIDs     []verifC08NID `json:"nids,omitempty"`
 }
 
 type verifC08Token struct {
-	Secret   string   `json:"secret"`
-	Policies []string `json:"policies,omitempty"`
-	Roles    []string `json:"roles,omitempty"`
-	SIDs     []string `json:"sids,omitempty"`
-	NIDs     []string `json:"nids,omitempty"`
+	Secret   string        `json:"secret"`
+	Policies []string      `json:"policies,omitempty"`
+	Roles    []string      `json:"roles,omitempty"`
+	SIDs     []verifC08SID `json:"sids,omitempty"`
+	NIDs     []verifC08NID `json:"nids,omitempty"`
 }
 
 type verifC08Op struct {
@@ -172,24 +204,40 @@ func (w *verifC08World) backend() *ACLResolverTestDelegate {
 	for id := range w.roles {
 		d.testRoles[id] = w.roleRow(id)
 	}
-	for s, t := range w.tokens {
-		tok := &structs.ACLToken{AccessorID: "acc-" + s, SecretID: s, RaftIndex: structs.RaftIndex{CreateIndex: 5, ModifyIndex: 5}}
-		for _, p := range t.Policies {
-			tok.Policies = append(tok.Policies, structs.ACLTokenPolicyLink{ID: p})
-		}
-		for _, r := range t.Roles {
-			tok.Roles = append(tok.Roles, structs.ACLTokenRoleLink{ID: r})
-		}
-		for _, n := range t.SIDs {
-			tok.ServiceIdentities = append(tok.ServiceIdentities, &structs.ACLServiceIdentity{ServiceName: n})
-		}
-		for _, n := range t.NIDs {
-			tok.NodeIdentities = append(tok.NodeIdentities, &structs.ACLNodeIdentity{NodeName: n, Datacenter: "dc1"})
-		}
-		tok.SetHash(true)
-		d.testTokens[s] = tok
+	for s := range w.tokens {
+		d.testTokens[s] = w.tokenRow(s)
 	}
 	return d
+}
+
+func verifC08DCs(dcs []string) []string {
+	if len(dcs) == 0 {
+		return nil
+	}
+	return append([]string{}, dcs...)
+}
+
+func (w *verifC08World) tokenRow(s string) *structs.ACLToken {
+	t := w.tokens[s]
+	tok := &structs.ACLToken{AccessorID: "acc-" + s, SecretID: s, RaftIndex: structs.RaftIndex{CreateIndex: 5, ModifyIndex: 5}}
+	for _, p := range t.Policies {
+		tok.Policies = append(tok.Policies, structs.ACLTokenPolicyLink{ID: p})
+	}
+	for _, r := range t.Roles {
+		tok.Roles = append(tok.Roles, structs.ACLTokenRoleLink{ID: r})
+	}
+	for _, n := range t.SIDs {
+		tok.ServiceIdentities = append(tok.ServiceIdentities, &structs.ACLServiceIdentity{ServiceName: n.Name, Datacenters: verifC08DCs(n.DCs)})
+	}
+	for _, n := range t.NIDs {
+		dc := n.DC
+		if dc == "" {
+			dc = "dc1"
+		}
+		tok.NodeIdentities = append(tok.NodeIdentities, &structs.ACLNodeIdentity{NodeName: n.Name, Datacenter: dc})
+	}
+	tok.SetHash(true)
+	return tok
 }
 
 func (w *verifC08World) policyRow(id string) *structs.ACLPolicy {
@@ -210,7 +258,14 @@ func (w *verifC08World) roleRow(id string) *structs.ACLRole {
 		row.Policies = append(row.Policies, structs.ACLRolePolicyLink{ID: p})
 	}
 	for _, n := range r.SIDs {
-		row.ServiceIdentities = append(row.ServiceIdentities, &structs.ACLServiceIdentity{ServiceName: n})
+		row.ServiceIdentities = append(row.ServiceIdentities, &structs.ACLServiceIdentity{ServiceName: n.Name, Datacenters: verifC08DCs(n.DCs)})
+	}
+	for _, n := range r.NIDs {
+		dc := n.DC
+		if dc == "" {
+			dc = "dc1"
+		}
+		row.NodeIdentities = append(row.NodeIdentities, &structs.ACLNodeIdentity{NodeName: n.Name, Datacenter: dc})
 	}
 	row.SetHash(true)
 	return row
@@ -250,17 +305,95 @@ func (w *verifC08World) effective(secret string) (pols []string, sids []string) 
 		addP(p)
 	}
 	for _, s := range t.SIDs {
-		addS(s)
+		addS(fmt.Sprintf("%s@%v", s.Name, s.DCs))
 	}
 	for _, r := range t.Roles {
 		for _, p := range w.roles[r].Policies {
 			addP(p)
 		}
 		for _, s := range w.roles[r].SIDs {
-			addS(s)
+			addS(fmt.Sprintf("%s@%v(%s)", s.Name, s.DCs, r))
 		}
 	}
 	return
+}
+
+func verifC08ScopeKey(dcs []string) string {
+	cp := append([]string{}, dcs...)
+	sort.Strings(cp)
+	return strings.Join(cp, ",")
+}
+
+// scopeConflictRoles: roles of the token that carry a service identity whose name also occurs, under a different
+// datacenter scope, in another source (another role or the token itself) of the same token.
+func (w *verifC08World) scopeConflictRoles(secret string) []string {
+	t := w.tokens[secret]
+	type src struct{ role, scope string }
+	by := map[string][]src{}
+	for _, s := range t.SIDs {
+		by[s.Name] = append(by[s.Name], src{"", verifC08ScopeKey(s.DCs)})
+	}
+	for _, r := range t.Roles {
+		for _, s := range w.roles[r].SIDs {
+			by[s.Name] = append(by[s.Name], src{r, verifC08ScopeKey(s.DCs)})
+		}
+	}
+	seen := map[string]bool{}
+	var out []string
+	for _, r := range t.Roles { // deterministic order
+		for _, s := range w.roles[r].SIDs {
+			for _, o := range by[s.Name] {
+				if o.role != r && o.scope != verifC08ScopeKey(s.DCs) && !seen[r] {
+					seen[r] = true
+					out = append(out, r)
+				}
+			}
+		}
+	}
+	return out
+}
+
+// checkSharedObjects deep-compares every role / token / policy object held by the live backend with a freshly built
+// copy of the same data. Returns true when a tolerated (known) finding was hit (caller re-synchronises).
+func (w *verifC08World) checkSharedObjects(c *verifkit.Case, live *ACLResolverTestDelegate, resolved string) bool {
+	ids := make([]string, 0, len(w.roles))
+	for id := range w.roles {
+		ids = append(ids, id)
+	}
+	sort.Strings(ids)
+	for _, id := range ids {
+		if want := w.roleRow(id); !reflect.DeepEqual(live.testRoles[id], want) {
+			gj, _ := json.Marshal(live.testRoles[id])
+			wj, _ := json.Marshal(want)
+			return c.Violation(w.f, "C08/shared-role-mutated-by-resolution",
+				"resolving token %s changed the shared role object %q (every token linked to that role is resolved from it):\n now    %s\n before %s", resolved, id, gj, wj)
+		}
+	}
+	ids = ids[:0]
+	for s := range w.tokens {
+		ids = append(ids, s)
+	}
+	sort.Strings(ids)
+	for _, s := range ids {
+		if want := w.tokenRow(s); !reflect.DeepEqual(live.testTokens[s], want) {
+			gj, _ := json.Marshal(live.testTokens[s])
+			wj, _ := json.Marshal(want)
+			return c.Violation(w.f, "C08/shared-token-mutated-by-resolution", "resolving token %s changed the shared token object %q:\n now    %s\n before %s", resolved, s, gj, wj)
+		}
+	}
+	ids = ids[:0]
+	for p := range w.policies {
+		ids = append(ids, p)
+	}
+	sort.Strings(ids)
+	for _, p := range ids {
+		if want := w.policyRow(p); !reflect.DeepEqual(live.testPolicies[p], want) {
+			gj, _ := json.Marshal(live.testPolicies[p])
+			wj, _ := json.Marshal(want)
+			return c.Violation(w.f, "C08/shared-policy-row-mutated-by-resolution", "resolving token %s changed the shared policy row %q:\n now    %s\n before %s", resolved, p, gj, wj)
+		}
+	}
+	return false
 }
 
 func verifC08Conflict(a, b verifC08Policy) bool {
@@ -300,9 +433,10 @@ func verifC08RunResolver(f verifkit.F, rec *verifkit.Rec, qs []verifC08Q, ops []
 	}
 	live := w.backend()
 	shared := w.resolver(live, w.init.CacheParsed, w.init.CacheAuthz)
-	defer shared.Close()
+	defer func() { shared.Close() }()
 	var earlier [][]string
 	nt := false
+	scopeMerged := map[string]string{} // role id -> first token whose resolution merged differently scoped same-named identities involving it
 	for _, op := range ops[1:] {
 		c.Op(op)
 		switch op.Kind {
@@ -354,11 +488,35 @@ func verifC08RunResolver(f verifkit.F, rec *verifkit.Rec, qs []verifC08Q, ops []
 				}
 			}
 			earlier = append(earlier, pols)
+			// datacenter scopes: the same identity name under different scopes from different sources of this token
+			scopeRoles := w.scopeConflictRoles(op.Token)
+			if len(scopeRoles) > 0 {
+				c.Label("same-identity-name-different-datacenter-scopes-across-roles")
+			}
+			for _, r := range w.tokens[op.Token].Roles {
+				if by, ok := scopeMerged[r]; ok && by != op.Token {
+					c.Label("history=role-shared-with-earlier-scope-merging-token")
+					nt = true
+				}
+			}
+			for _, r := range scopeRoles {
+				if _, ok := scopeMerged[r]; !ok {
+					scopeMerged[r] = op.Token
+				}
+			}
 			res, err := shared.ResolveToken(op.Token)
 			if err != nil {
 				f.Fatalf("harness: ResolveToken(%s) through the shared resolver failed: %v", op.Token, err)
 			}
 			warm := verifC08Vector(res.Authorizer, qs)
+			// the objects the backend hands out are shared by every resolution (state-store rows on servers, cache
+			// entries on clients): a resolution must leave them exactly as they were
+			if w.checkSharedObjects(c, live, op.Token) {
+				live = w.backend()
+				shared.Close()
+				shared = w.resolver(live, w.init.CacheParsed, w.init.CacheAuthz)
+				continue
+			}
 			coldR := w.resolver(w.backend(), 64, 64)
 			cres, err := coldR.ResolveToken(op.Token)
 			if err != nil {
@@ -445,6 +603,24 @@ func verifC08GenRules(t *rapid.T, pool *[]verifC08Rule) []verifC08Rule {
 	return rules
 }
 
+var verifC08Scopes = [][]string{nil, nil, {"dc1"}, {"dc2"}, {"dc1", "dc2"}, {"dc2", "dc1"}}
+
+func verifC08GenSIDs(t *rapid.T, max int, label string) []verifC08SID {
+	var out []verifC08SID
+	for _, n := range verifC08Subset(t, verifC08SIDs, max, label) {
+		out = append(out, verifC08SID{Name: n, DCs: rapid.SampledFrom(verifC08Scopes).Draw(t, label+"-dcs")})
+	}
+	return out
+}
+
+func verifC08GenNIDs(t *rapid.T, max int, label string) []verifC08NID {
+	var out []verifC08NID
+	for _, n := range verifC08Subset(t, []string{"web", "x"}, max, label) {
+		out = append(out, verifC08NID{Name: n, DC: rapid.SampledFrom([]string{"dc1", "dc1", "dc2"}).Draw(t, label+"-dc")})
+	}
+	return out
+}
+
 func verifC08Subset(t *rapid.T, from []string, max int, label string) []string {
 	n := rapid.IntRange(0, max).Draw(t, label+"-n")
 	if n > len(from) {
@@ -468,20 +644,21 @@ func verifC08GenResolverHistory(t *rapid.T) []verifC08Op {
 		pids = append(pids, id)
 		init.Policies = append(init.Policies, verifC08Policy{ID: id, Rules: verifC08GenRules(t, &pool)})
 	}
-	nr := rapid.IntRange(0, 2).Draw(t, "nroles")
+	nr := rapid.IntRange(0, 3).Draw(t, "nroles")
 	for i := 0; i < nr; i++ {
 		id := fmt.Sprintf("r%d", i)
 		rids = append(rids, id)
-		init.Roles = append(init.Roles, verifC08Role{ID: id, Policies: verifC08Subset(t, pids, 2, "role-policies"), SIDs: verifC08Subset(t, verifC08SIDs, 1, "role-sids")})
+		init.Roles = append(init.Roles, verifC08Role{ID: id, Policies: verifC08Subset(t, pids, 2, "role-policies"),
+			SIDs: verifC08GenSIDs(t, 2, "role-sids"), NIDs: verifC08GenNIDs(t, 1, "role-nids")})
 	}
 	nt := rapid.IntRange(2, 4).Draw(t, "ntokens")
 	for i := 0; i < nt; i++ {
 		s := fmt.Sprintf("secret-%d", i)
 		secrets = append(secrets, s)
-		tok := verifC08Token{Secret: s, Policies: verifC08Subset(t, pids, 3, "token-policies"), Roles: verifC08Subset(t, rids, 2, "token-roles")}
+		tok := verifC08Token{Secret: s, Policies: verifC08Subset(t, pids, 3, "token-policies"), Roles: verifC08Subset(t, rids, 3, "token-roles")}
 		if rapid.IntRange(0, 3).Draw(t, "ident") == 0 {
-			tok.SIDs = verifC08Subset(t, verifC08SIDs, 2, "token-sids")
-			tok.NIDs = verifC08Subset(t, []string{"web", "x"}, 1, "token-nids")
+			tok.SIDs = verifC08GenSIDs(t, 2, "token-sids")
+			tok.NIDs = verifC08GenNIDs(t, 1, "token-nids")
 		}
 		init.Tokens = append(init.Tokens, tok)
 	}
@@ -493,7 +670,8 @@ func verifC08GenResolverHistory(t *rapid.T) []verifC08Op {
 			p := verifC08Policy{ID: rapid.SampledFrom(pids).Draw(t, "update-id"), Rules: verifC08GenRules(t, &pool)}
 			ops = append(ops, verifC08Op{Kind: "update-policy", Policy: &p})
 		case k == 1 && len(rids) > 0:
-			r := verifC08Role{ID: rapid.SampledFrom(rids).Draw(t, "update-role"), Policies: verifC08Subset(t, pids, 2, "role-policies"), SIDs: verifC08Subset(t, verifC08SIDs, 1, "role-sids")}
+			r := verifC08Role{ID: rapid.SampledFrom(rids).Draw(t, "update-role"), Policies: verifC08Subset(t, pids, 2, "role-policies"),
+				SIDs: verifC08GenSIDs(t, 2, "role-sids"), NIDs: verifC08GenNIDs(t, 1, "role-nids")}
 			ops = append(ops, verifC08Op{Kind: "update-role", Role: &r})
 		default:
 			ops = append(ops, verifC08Op{Kind: "resolve", Token: rapid.SampledFrom(secrets).Draw(t, "token")})
